@@ -256,7 +256,7 @@ def run_check(pid, tier, seed, jobs):
                 f["signature"] = sig0
                 n = per_sig.get(sig0, 0)
                 per_sig[sig0] = n + 1
-                if n >= 2:  # same failure signature already has two replays: counted, not replayed again
+                if n >= 8:  # up to 8 candidates per failure signature are kept
                     continue
                 os.makedirs(rdir, exist_ok=True)
                 rec = {"property": pid, "spec": r["spec"], "values": f["values"], "label": f["label"],
@@ -269,24 +269,45 @@ def run_check(pid, tier, seed, jobs):
     if todo:
         from concurrent.futures import ThreadPoolExecutor
 
-        with ThreadPoolExecutor(max_workers=jobs) as ex:
-            rrs = list(ex.map(lambda t: replay_subprocess(t[1]), todo))
-        for (sig0, path, f, spec), rr in zip(todo, rrs):
-            replays_done += 1
-            f["replay"] = rr
-            if rr["kind"] != "fail":
-                harness_errors.append("counterexample does not replay concretely (%s): %s label=%s %s"
-                                      % (rr["kind"], path, f["label"], str(rr.get("detail"))[:300]))
-                continue
-            sig = signature(spec, rr["label"])
-            if sig in known_sigs:
-                known_hit.setdefault(sig, path)
-                try:
-                    os.remove(path)
-                except OSError:
-                    pass
-            else:
-                violations.append((sig, path, rr))
+        # candidates of one signature are replayed in rounds of two until one reproduces; a signature none of whose
+        # (up to 8) candidates reproduces concretely is a harness error (tracer artefact), never a violation
+        by_sig = {}
+        for t in todo:
+            by_sig.setdefault(t[0], []).append(t)
+        settled = {}
+        for rnd in range(4):
+            batch = []
+            for sig0, lst in by_sig.items():
+                if sig0 in settled:
+                    continue
+                batch.extend(lst[2 * rnd: 2 * rnd + 2])
+            if not batch:
+                break
+            with ThreadPoolExecutor(max_workers=jobs) as ex:
+                rrs = list(ex.map(lambda t: replay_subprocess(t[1]), batch))
+            for (sig0, path, f, spec), rr in zip(batch, rrs):
+                replays_done += 1
+                f["replay"] = rr
+                if rr["kind"] != "fail":
+                    try:
+                        os.remove(path)
+                    except OSError:
+                        pass
+                    continue
+                settled[sig0] = True
+                sig = signature(spec, rr["label"])
+                if sig in known_sigs:
+                    known_hit.setdefault(sig, path)
+                    try:
+                        os.remove(path)
+                    except OSError:
+                        pass
+                else:
+                    violations.append((sig, path, rr))
+        for sig0, lst in by_sig.items():
+            if sig0 not in settled:
+                harness_errors.append("no counterexample of signature %r replays concretely (%d tried): %s"
+                                      % (sig0, min(len(lst), 8), json.dumps(lst[0][3])[:200]))
 
     # UNKNOWN obligations: never success
     for r in inconclusive:
